@@ -126,9 +126,9 @@ async fn main() -> Result<(), Terminator> {
     {
         let st_mut = Arc::get_mut(&mut state).unwrap();
         let ctx_mut = Arc::get_mut(&mut st_mut.contexts).unwrap();
+        st_mut.timeouts = cfg.timeouts;
         ctx_mut.default_timeout = st_mut.timeouts.idle;
 
-        st_mut.timeouts = cfg.timeouts;
         st_mut.listeners = listeners::from_config(&cfg.listeners)?;
         st_mut.connectors = connectors::from_config(&cfg.connectors)?;
 
